@@ -1,5 +1,6 @@
 import hashlib
 
+from rogw.tranp.errors import Errors
 from rogw.tranp.lang.annotation import injectable
 from rogw.tranp.module.module import Module
 from rogw.tranp.module.loader import IModuleLoader
@@ -75,10 +76,14 @@ class Modules:
 			try:
 				self.__load_dependencies(self.__modules[module_path])
 				self.__loader.preprocess(self.__modules[module_path])
-			except Exception:
+			except Errors.Error:
 				# ロードに失敗したモジュールを登録したままにすると、次回以降はプリプロセス未完了のまま再利用されてしまうため破棄する
 				self.unload(module_path)
 				raise
+			except Exception as e:
+				# XXX プリプロセスはProcedureの外でシンボルを解決するため、内部例外はここでアプリケーション例外に変換する
+				self.unload(module_path)
+				raise Errors.Fatal(module_path, 'Unhandled error', e) from e
 
 		return self.__modules[module_path]
 
